@@ -87,6 +87,7 @@ def main(argv=None):
     except Exception:
         pass
     engine.setup_lentil()
+    engine.reset_library_state()       # import-time snapshot of the library's module-level state
     mod = importlib.import_module(f'mc.props.{pid.lower()}')
 
     if a.replay:
